@@ -4,6 +4,22 @@ from ..spec import gen
 LEAVES = (('ap', 'p'), ('ap', 'q'), ('ap', 'x_1'), ('true',), ('false',))
 
 
+def assoc_family(leaves=LEAVES):
+    """nested-left / nested-right / flat forms of the n-ary connectives: different trees whose
+    printed forms differ only in bracketing"""
+    out = []
+    a, b, c = leaves[0], leaves[1], leaves[2]
+    for op in ('and', 'or'):
+        for (x, y, z) in ((a, b, c), (a, a, b), (c, b, a)):
+            out += [(op, (op, x, y), z), (op, x, (op, y, z)), (op, x, y, z)]
+        other = 'or' if op == 'and' else 'and'
+        out += [(op, (other, a, b), c), (op, a, (other, b, c))]
+    return out
+
+
+MUST = {}
+
+
 def pools(rng, cap, depth=2, extra_random=0, rdepth=3):
     out = {}
     pl = gen.levels(gen.pl_ops(), depth, leaves=LEAVES, cap=cap, rng=rng)
@@ -20,6 +36,10 @@ def pools(rng, cap, depth=2, extra_random=0, rdepth=3):
         out['LTL'].append(gen.random_tree(rng, gen.path_ops(), rdepth, LEAVES))
         out['CTL'].append(gen.random_tree(rng, gen.ctl_ops(), rdepth, LEAVES))
         out['CTLS'] += gen.ctls_state_formulas(rng, 1, 3, 2, leaves=LEAVES)
+    fam = assoc_family()
+    for k in out:
+        out[k] = fam + out[k]
+        MUST[k] = list(fam)
     for k in out:
         seen = set()
         uniq = []
